@@ -116,7 +116,7 @@ func runC06(c *Ctx) {
 	if eqSearch {
 		c.Check("C06.U1", "IsComputedUsing:code-equality", true, icu.Pos(), "the result is slices.ContainsFunc(codes, c => decoded code == uint64(c))")
 	} else {
-		c.CheckGuard("C06.U1", "IsComputedUsing:code-equality", icu, nil, &GCheck{Name: "decoded code == uint64(one of the supplied codes)", NoDescend: true, MatchCmp: func(c *Ctx, b *ssa.BinOp, env Env) (bool, bool) {
+		c.CheckGuard("C06.U1", "IsComputedUsing:code-equality", icu, nil, &GCheck{Name: "decoded code == uint64(one of the supplied codes)", MatchCmp: func(c *Ctx, b *ssa.BinOp, env Env) (bool, bool) {
 			if b.Op != token.EQL && b.Op != token.NEQ {
 				return false, false
 			}
